@@ -62,6 +62,10 @@ ASSUMPTIONS = [
     "kernel hangs are reported as inconclusive (wall-clock is not an oracle)",
     "under an allocation failure the call may raise or return; what is "
     "required is no sanitizer report, no abnormal exit, arguments unchanged",
+    "a public call that returns normally although a kernel it reached "
+    "returned a non-zero error code is a violation (unusable input must be "
+    "answered by an exception or a sentinel, which every other wrapper does "
+    "by raising on that code)",
 ]
 
 
@@ -120,6 +124,11 @@ def classify(res):
         return "violation", f"ubsan_{what}@{m.group(1)}", err[-6000:]
     if rc == 3:
         return "violation", "canary_overwritten", err[-3000:]
+    if rc == 5:
+        kerr = [p for p in res["progress"] if p and p[0] == "KERR"]
+        what = kerr[-1][3] if kerr else "?"
+        return "violation", f"kernel_error_code_ignored@{what}", \
+            json.dumps(kerr[-1] if kerr else None)
     if isinstance(rc, int) and rc < 0:
         return "violation", f"signal_{-rc}", err[-6000:]
     if "Fatal Python error" in err:
@@ -357,6 +366,10 @@ def run_check(tier, seed):
                 if p[0] == "CALL":
                     ncalls += 1
                     entry_calls[p[3]] += 1
+                elif p[0] == "KNOWNHIT":
+                    probes["known_finding_met:" + p[3]] += 1
+                elif p[0] == "KERR":
+                    probes["kernel_error_code_but_call_returned:" + p[3]] += 1
                 elif p[0] == "DONE":
                     sessions_done += 1
                     sdig.add(p[2])
